@@ -114,8 +114,8 @@ def bodyPC : PC → Bool
   | .l139 | .l140 | .l141 | .l142 | .l144 | .l145 | .l146 | .l147 | .l148 | .l149 => true
   | _ => false
 
-/-- the machine's statement function with the body of `_iter_cached` taken from a translated program (the statements of
-    `__iter__` and of the consumers are not part of that method) -/
+/-- the machine's statement function with `__iter__` and the body of `_iter_cached` taken from a translated program (the
+    consumers' own statements — thread start, the fast-path test of a query method, the list iterator — are not part of them) -/
 def stepIterT (p : List Node) (sh : Shared) (t : Tid) (it : Iter) : Option (Shared × Iter) :=
   if bodyPC it.pc then stepProg p sh t it else stepIter sh t it
 
@@ -185,5 +185,40 @@ def runFlat (src : List Int) (e : Option PyErr) (inv : List IStmt) : List IStmt 
 /-- `rrulebase.__init__(cache)` -/
 def runInitObj (src : List Int) (e : Option PyErr) (inv : List IStmt) (cacheArg : Bool) (p : List IStmt) (o : Obj) : Option Obj :=
   runFlat src e inv (chooseBranch cacheArg p) o
+
+/-! ### `_restartable` (the iterator that feeds the cache) -/
+
+/-- `__init__`: `self._func = func; self._gen = func(); self._pos = 0`; `__next__`: `try: item = advance_iterator(self._gen)` /
+    `except StopIteration: raise` / `except BaseException: self._gen = itertools.islice(self._func(), self._pos, None); raise` /
+    `self._pos += 1` / `return item` -/
+structure RestartProg where
+  initPosZero : Bool
+  advancesInTry : Bool
+  stopReraised : Bool
+  restartsAtPos : Bool
+  countsAfter : Bool
+  returnsItem : Bool
+  deriving DecidableEq, Repr, Inhabited
+
+inductive Out | value (x : Int) | stop | raise_ (e : PyErr)
+  deriving DecidableEq, Repr, Inhabited
+
+/-- `self._pos`, and the inner generator `self._gen`: how many values of `src` it is past, whether an exception has killed it -/
+structure RState where
+  pos : Nat := 0
+  inner : Nat := 0
+  dead : Bool := false
+  deriving DecidableEq, Repr, Inhabited
+
+/-- one `__next__()` over an underlying `func()` that yields `src` and then ends by StopIteration (`e = none`) or raises `e` -/
+def runRestartNext (p : RestartProg) (src : List Int) (e : Option PyErr) (s : RState) : Option (Out × RState) :=
+  if !(p.initPosZero && p.advancesInTry && p.stopReraised && p.returnsItem) then none else
+  if s.dead then some (.stop, s) else
+  match src[s.inner]? with
+  | some x => some (.value x, { s with inner := s.inner + 1, pos := if p.countsAfter then s.pos + 1 else s.pos })
+  | none =>
+    match e with
+    | none => some (.stop, s)
+    | some err => some (.raise_ err, if p.restartsAtPos then { s with inner := s.pos, dead := false } else { s with dead := true })
 
 end CachePy
